@@ -98,3 +98,8 @@ def judge(case, prog, r1, end1, g):
         uniq.setdefault(x['sig'], x)
     return dict(viol=list(uniq.values()), obs=repr((P.obs_canon(r1.obs), er, [e[0] for e in r1.log])),
                 nontrivial=bool(case.get('mods')) or case.get('glob') != 'none', transitions=len(prog['steps']) * 2 + 2)
+
+
+def replay_one(case, violation):
+    from mc.checks import c04_threads
+    return c04_threads.replay_one(case, violation)
